@@ -61,6 +61,19 @@ def evaluate(e, env, checked=True):
             return v
     if k == "const":
         return e[1]
+    if k == "uneval":
+        # a named or promoted constant: evaluate its (CTFE) body when the program is at hand
+        prog = env.get("prog")
+        if prog is not None:
+            nm = e[1] if len(e) < 3 or e[2] is None else "%s::promoted[%s]" % (e[1], e[2])
+            cf = prog.fns.get(nm)
+            if cf is not None and nm not in env.get("_const_stack", ()):
+                sub_env = dict(env)
+                sub_env["_const_stack"] = tuple(env.get("_const_stack", ())) + (nm,)
+                sub_env["args"] = {}
+                sub_env["locals"] = {}
+                return evaluate(cf.local_expr(0, 12), sub_env, checked)
+        raise Unknown("uneval %s" % (e[1],))
     if k == "arg":
         a = env.get("args", {})
         if e[2] in a:
